@@ -10,7 +10,8 @@ package otp
 //@ spec otp_entry(s, m) := str_split(s, ",")[m]
 //@
 //@ func (*OTP).LoginPost
-//@   property C01 C02 C03 C04 C12 C16 C18
+//@   property C01 C02 C03 C04 C12 C16 C18 C17
+//@   ensures[C17] no_secret_leak: secrets_clean
 //@   invariant loop#1 index_inv: rangeindex >= -1
 //@
 //@   -- C01/C12: the session is written only after a stored one-time password of the
